@@ -75,4 +75,13 @@ def pctS (o : Option Str) : Str := o.getD ['N', 'o', 'n', 'e']
 def canonNvra (p : Nvra) : Str :=
   pctS p.name ++ '-' :: Str.natStr p.epoch ++ ':' :: pctS p.version ++ '-' :: pctS p.release ++ '.' :: pctS p.arch
 
+/-- `Rpms._check_nevra`: refuse a string without `:`, parse (any `ValueError` is re-raised as `ValueError`), return the
+canonical string together with the parts (`epoch or 0` is the identity on the integer already there) -/
+def checkNevra (nevra : Str) : Except Err (Str × Nvra) :=
+  if !nevra.contains ':' then .error .valueError
+  else match parseNvra nevra with
+    | .error .valueError => .error .valueError
+    | .error e => .error e
+    | .ok p => .ok (canonNvra p, p)
+
 end PM
